@@ -165,6 +165,71 @@ class ScoreKind(AbsInt):
         return TOP
 
 
+class SideKind(AbsInt):
+    """Which tail (left / right / a concatenation layout) a curve belongs to."""
+
+    def __init__(self, ctx):
+        super().__init__(ctx)
+        self.problems = []
+        self.checked = 0
+
+    def const(self, node, fr):
+        return 'k'
+
+    def join_distinct(self, a, b):
+        return TOP
+
+    def project_call_override(self, g, node, fr):
+        if g.name == '_compute_empirical':
+            return Tup([('g', 'left'), ('c', 'left'), ('g', 'right'), ('c', 'right')])
+        if g.name == '_compute_candidates':
+            return Tup([('clist', 'left'), ('clist', 'right')])
+        return None
+
+    def unpack(self, val, index, total, node, fr):
+        if isinstance(val, Tup) and len(val.elems) == total:
+            return val.elems[index]
+        return TOP
+
+    def iter_elem(self, val, node, fr):
+        if isinstance(val, Tup) and val.kind == 'zip':
+            return Tup([self.iter_elem(e, node, fr) for e in val.elems])
+        if isinstance(val, tuple) and val and val[0] == 'clist':
+            return ('c', val[1])
+        return TOP
+
+    def sequence(self, node, vals, fr):
+        return Tup(vals)
+
+    def external_call(self, name, node, fr):
+        a = node.args
+        if name in ('numpy.concatenate', 'numpy.hstack', 'numpy.append') and a:
+            v = self.value(a[0], fr) if name != 'numpy.append' else Tup([self.value(x, fr) for x in a[:2]])
+            if isinstance(v, Tup) and all(isinstance(e, tuple) and e and e[0] == 'c' for e in v.elems):
+                return ('c', ('cat',) + tuple(e[1] for e in v.elems))
+            return TOP
+        if name in ('numpy.sum', 'numpy.abs', 'numpy.square', 'numpy.power', 'numpy.asarray', 'numpy.array', 'numpy.mean', 'numpy.sqrt') and a:
+            return self.value(a[0], fr)
+        return TOP
+
+    def binop(self, node, l, r, fr):
+        if isinstance(l, tuple) and isinstance(r, tuple) and l and r and l[0] == r[0] == 'c':
+            self.checked += 1
+            if l[1] != r[1]:
+                self.problems.append((node, fr.fn, f'a curve laid out as {l[1]} is compared element by element with one laid out as {r[1]}'))
+            return l
+        for x in (l, r):
+            if isinstance(x, tuple) and x and x[0] == 'c':
+                return x
+        return TOP
+
+    def comprehension(self, node, fr):
+        if isinstance(node, ast.ListComp):
+            v = self.value(node.elt, fr)
+            return ('clist', v[1]) if isinstance(v, tuple) and v and v[0] == 'c' else TOP
+        return TOP
+
+
 def run(ctx, rep):
     prog = ctx.prog
     rep.trust(*K.TRUSTED_BASE_COMMON, 'Series.rank(ascending=False) gives the largest rank to the smallest value; np.argmax returns the position of the maximum')
@@ -309,6 +374,26 @@ def run(ctx, rep):
             ok = bool(names) and all(v == 1 for v in cnt.values()) and not any(isinstance(x, (ast.Continue, ast.Break)) for x in ast.walk(lp[0]))
         rep.check('D3.index', helper, helper.node.name, ok, 'one curve per candidate per list, in candidate order',
                   'the tail curves are not produced one per candidate in candidate order', construct='co-ordered curves')
+    # tail layout of the compared curves
+    sd = SideKind(ctx)
+    sfr = Frame(fn, {})
+    for st_ in walk_no_nested(fn.node):
+        if isinstance(st_, ast.Assign):
+            sd.value(st_.value, sfr)
+    for node, f, msg in sd.problems:
+        rep.bad('D3.index', f, node, msg + ': the combined score compares the lower tail of one with the upper tail of the other')
+    if sd.checked:
+        if not sd.problems:
+            rep.ok('D3.index', fn, fn.node.name, f'{sd.checked} curve differences compare curves of the same tail layout', construct='tail layout of differences')
+    else:
+        rep.undecided('D3.index', fn, fn.node.name, 'no curve difference recognised', construct='tail layout of differences')
+    ce = prog.functions.get('copulas.bivariate._compute_empirical')
+    if ce is not None:
+        rets_ = [n for n in walk_no_nested(ce.node) if isinstance(n, ast.Return) and isinstance(n.value, ast.Tuple)]
+        names_ = [getattr(e, 'id', '') for e in rets_[0].value.elts] if rets_ else []
+        sides = ['left' if (n_.lower().endswith('left') or n_ == 'L') else 'right' if (n_.lower().endswith('right') or n_ == 'R') else '?' for n_ in names_]
+        rep.check('D3.index', ce, rets_[0] if rets_ else ce.node.name, sides == ['left', 'left', 'right', 'right'],
+                  'returns (left grid, left curve, right grid, right curve)', f'the empirical tails are returned as {names_}', construct='empirical tail order')
     # D5 determinism
     rng = get_rng(ctx)
     clo = ctx.cg.closure([fn])
